@@ -64,7 +64,7 @@ def sources(r, tier):
         yield name, src
     # programs split over library modules (register-held library variables, functions with and without own registers)
     from . import c13
-    for i in range(25 if tier == "quick" else 1000):
+    for i in range(25 if tier == "quick" else 250):
         src, merged, desc = c13.gen_split(r)
         yield f"split:{i}", src
     for k in range(1, 4):
@@ -74,7 +74,7 @@ def sources(r, tier):
     # programs in which no line is short enough to take the version note
     yield "longlines:1", 'WallHeaters["A device with a really long name to make the line long"].On = 1\n' * 3
     yield "longlines:2", "# pytrapic: original-code-as-comment\nx = db.Setting + db.On + db.Mode + db.Power + db.Lock + db.Open + db.Setting + db.Mode + db.On\ndb.Setting = x + x + x + x + x + x + x + x + x + x + x + x + x + x\n"
-    n = 120 if tier == "quick" else 3000
+    n = 120 if tier == "quick" else 1000
     for i in range(n):
         g = progen.Gen(r, progen.Profile(max_stmts=5))
         prog = g.program()
@@ -89,7 +89,7 @@ def run(tier: str, seed: int) -> int:
     drv = Driver()
     r = rng_for(PROP, seed)
     failures, diffs = [], []
-    nvec = 3 if tier == "quick" else 8
+    nvec = 3 if tier == "quick" else 5
     seen_err = 0
     for name, src in sources(r, tier):
         for k in range(nvec):
@@ -118,7 +118,7 @@ def run(tier: str, seed: int) -> int:
             if bad and not any(ord(c) > 127 for c in code):
                 failures.append({"what": "; ".join(bad), "name": name, "src": src, "opts": opts, "result": {k: res[k] for k in res if k != "code"}, "code": code})
     # synthetic code strings: model vs the formula applied by Python (ties PV.PyStr.splitlines to CPython once more)
-    n_syn = 1500 if tier == "quick" else 50000
+    n_syn = 1500 if tier == "quick" else 20000
     alphabet = ["a", "r1", " ", "\n", "\n", "\r", "\r\n", "\x0b", "\x0c", "\x1c", "\x1d", "\x1e", "\x85", " ", " ", "#", "é"]
     for i in range(n_syn):
         s = "".join(r.choice(alphabet) for _ in range(r.randrange(0, 12)))
